@@ -462,6 +462,8 @@ class Evaluator(object):
             if f.id in ('zip', 'enumerate', 'range'):
                 r = list(r)
             return r
+        if isinstance(f, ast.Name) and f.id == 'hasattr' and len(args) == 2 and isinstance(args[0], (int, str, float, tuple, ModelValue)) and isinstance(args[1], str) and f.id not in self.env:
+            return hasattr(args[0], args[1]) if not isinstance(args[0], ModelValue) else args[1] in getattr(args[0], 'model_attrs', ())
         if isinstance(f, ast.Name) and f.id in ('setattr', 'getattr', 'hasattr') and args and isinstance(args[0], Obj) and f.id not in self.env:
             o_ = args[0]
             if f.id == 'setattr' and len(args) == 3:
